@@ -2503,6 +2503,9 @@ def _get_slice_arguments(
         return fst.FST(arguments(posonlyargs=[], args=[], kwonlyargs=[], kw_defaults=[], defaults=[]),
                        [''], None, from_=self)
 
+    if cut and fst.FST.get_option('args_as', options):  # the conversion is done on the slice after it is cut, make sure it can be done before cutting anything by doing it on a copy
+        _get_slice_arguments(self, start, stop, field, False, options)
+
     body, _, _, start, stop = _make_arguments_allargs_w_markers(self, None, start, stop)
     len_body = len(body)
     loc_first = body[start].f._loc_argument(True)
